@@ -303,16 +303,17 @@ def _main(check):
         KR = getattr(check, "REALCHECK_K", {"quick": 150, "thorough": 1000})[tier]
         seenrc = set(); uniq = []
         for c in sorted(realchecks, key=lambda c: json.dumps(c, sort_keys=True, default=str)):
-            k_ = json.dumps({k: v for k, v in c.items() if k not in ("family", "_realcheck")}, sort_keys=True, default=str)
+            k_ = json.dumps({k: v for k, v in c.items() if k not in ("family", "_realcheck", "_must")}, sort_keys=True, default=str)
             if k_ not in seenrc: seenrc.add(k_); uniq.append(c)
-        sel = uniq if len(uniq) <= KR else rnd.sample(uniq, KR)
-        try: rres = run_replay([{k: v for k, v in c.items() if k != "_realcheck"} for c in sel])
+        must = [c for c in uniq if c.get("_must")]; rest = [c for c in uniq if not c.get("_must")]
+        sel = must + (rest if len(rest) <= KR else rnd.sample(rest, KR))
+        try: rres = run_replay([{k: v for k, v in c.items() if k not in ("_realcheck", "_must")} for c in sel])
         except mirdump.DumpError as e:
             print("INCONCLUSIVE property=%s: %s" % (pid, e)); sys.exit(2)
         for c, r in zip(sel, rres):
             nreal += 1
             why = check.real_ok(c, r)
-            if why: real_violations.append(({"what": why, "case": {k: v for k, v in c.items() if k not in ("family", "_realcheck")}, "family": c["family"], "kind": "real"}, r))
+            if why: real_violations.append(({"what": why, "case": {k: v for k, v in c.items() if k not in ("family", "_realcheck", "_must")}, "family": c["family"], "kind": "real"}, r))
         log("real-build obligations: %d cases executed on the real build, %d failing" % (nreal, len(real_violations)))
     # confirm candidate violations on the real build, classify against known findings
     known = load_known(pid); confirmed = []; unconfirmed = []; known_hits = {}
